@@ -246,6 +246,9 @@ func schemaFromAny(v any) (avro.Schema, error) {
 // (the output is valid Avro for an independent reader).
 func runEncoderProps(r *Run, prop string) {
 	c01Big(r)
+	if prop == "C01" {
+		c10LargePointee(r) // values above 64 KiB behind pointers, banks closed and recycled record by record
+	}
 	nfiles := r.N(90, 2500)
 	for i := 0; i < nfiles; i++ {
 		e := pool[i%len(pool)]
